@@ -110,6 +110,8 @@ def check(F, rep, tier):
         reach = cg.closure([f.path])
         if tgt and tgt <= reach: rep.ok("R07.6", "%s converts through From<SemVer>/From<PEP440> for Zerv" % nm, nontrivial_key=nm)
         else: rep.bad("R07.6", "other-conversion:" + nm, "%s does not reach both From<SemVer> and From<PEP440> for Zerv" % nm, f.where())
+    import tables as _t
+    _t.sanitizer_presets(F, rep, "R07.7", ("semver_str", "pep440_local_str", "uint", "key"))
     return core.finish(rep, explanation=EXPL, assumptions=ASSUME, trusted=TRUST)
 
 EXPL = ("Structural clauses of faithful conversion: writer labels and reader keys map each secondary variable and each pre-release label back to itself; on the SemVer rendering path every integer parse has the width of the field it fills; "
